@@ -4,6 +4,7 @@ MCEnders == @ENDERS@
 MCMutators == @MUTATORS@
 MCChildren == @CHILDREN@
 MCReaders == @READERS@
+MCRegistrars == @REGISTRARS@
 MCProcessors == @PROCESSORS@
 MCShared == @SHARED@
 =============================================================================
